@@ -62,7 +62,8 @@ pub proof fn lemma_closure_start(f: Function, fwd: bool)
 {
     reveal(fp_closure);
     let s = start_loc(f, fwd).unwrap();
-    assert(reach_in(f, fwd, s, 0, s));
+    let p = seq![s];
+    assert(fp_walk(f, fwd, p) && Some(p[0]) == start_loc(f, fwd) && p.last() == s);
 }
 
 pub proof fn lemma_closure_step(f: Function, fwd: bool, l: Loc, l2: Loc)
@@ -70,38 +71,43 @@ pub proof fn lemma_closure_step(f: Function, fwd: bool, l: Loc, l2: Loc)
     ensures fp_closure(f, fwd, l2),
 {
     reveal(fp_closure);
-    let s = start_loc(f, fwd).unwrap();
-    let n = choose|n: nat| #[trigger] reach_in(f, fwd, s, n, l);
-    assert(reach_in(f, fwd, s, ((n + 1) - 1) as nat, l));
-    assert(reach_in(f, fwd, s, n + 1, l2));
+    let p = choose|p: Seq<Loc>| #[trigger] fp_walk(f, fwd, p) && Some(p[0]) == start_loc(f, fwd) && p.last() == l;
+    let q = p.push(l2);
+    assert forall|i: int| 0 <= i < q.len() - 1 implies step(f, fwd, #[trigger] q[i], q[i + 1]) by {
+        if i < p.len() - 1 { assert(step(f, fwd, p[i], p[i + 1])); }
+    }
+    assert(fp_walk(f, fwd, q) && Some(q[0]) == start_loc(f, fwd) && q.last() == l2);
 }
 
-proof fn lemma_reach_induct(f: Function, fwd: bool, s: Loc, n: nat, l: Loc, p: LSet)
+proof fn lemma_walk_induct(f: Function, fwd: bool, p: Seq<Loc>, s: LSet)
     requires
-        reach_in(f, fwd, s, n, l),
-        p(s),
-        forall|a: Loc, b: Loc| p(a) && #[trigger] step(f, fwd, a, b) ==> p(b),
-    ensures p(l),
-    decreases n,
+        fp_walk(f, fwd, p),
+        s(p[0]),
+        forall|a: Loc, b: Loc| s(a) && #[trigger] step(f, fwd, a, b) ==> s(b),
+    ensures s(p.last()),
+    decreases p.len(),
 {
-    if n > 0 {
-        let m = choose|m: Loc| #[trigger] reach_in(f, fwd, s, (n - 1) as nat, m) && step(f, fwd, m, l);
-        lemma_reach_induct(f, fwd, s, (n - 1) as nat, m, p);
+    if p.len() > 1 {
+        let q = p.drop_last();
+        assert forall|i: int| 0 <= i < q.len() - 1 implies step(f, fwd, #[trigger] q[i], q[i + 1]) by {
+            assert(step(f, fwd, p[i], p[i + 1]));
+        }
+        lemma_walk_induct(f, fwd, q, s);
+        assert(step(f, fwd, p[p.len() - 2], p[p.len() - 2 + 1]));
     }
 }
 
 /// INDUCTION over the closure: a set that contains the start location and is closed under steps contains the closure
-pub proof fn lemma_closure_induct(f: Function, fwd: bool, p: LSet)
+pub proof fn lemma_closure_induct(f: Function, fwd: bool, s: LSet)
     requires
-        start_loc(f, fwd) matches Some(s) ==> p(s),
-        forall|a: Loc, b: Loc| p(a) && #[trigger] step(f, fwd, a, b) ==> p(b),
-    ensures forall|l: Loc| #[trigger] fp_closure(f, fwd, l) ==> p(l),
+        start_loc(f, fwd) matches Some(l0) ==> s(l0),
+        forall|a: Loc, b: Loc| s(a) && #[trigger] step(f, fwd, a, b) ==> s(b),
+    ensures forall|l: Loc| #[trigger] fp_closure(f, fwd, l) ==> s(l),
 {
     reveal(fp_closure);
-    assert forall|l: Loc| #[trigger] fp_closure(f, fwd, l) implies p(l) by {
-        let s = start_loc(f, fwd).unwrap();
-        let n = choose|n: nat| #[trigger] reach_in(f, fwd, s, n, l);
-        lemma_reach_induct(f, fwd, s, n, l, p);
+    assert forall|l: Loc| #[trigger] fp_closure(f, fwd, l) implies s(l) by {
+        let p = choose|p: Seq<Loc>| #[trigger] fp_walk(f, fwd, p) && Some(p[0]) == start_loc(f, fwd) && p.last() == l;
+        lemma_walk_induct(f, fwd, p, s);
     }
 }
 
